@@ -1,22 +1,27 @@
 ---------------------------- MODULE BoolTree_Laws ----------------------------
 (* constant-level laws of the C06 vocabulary, evaluated as ASSUMEs (no behaviour):
-   every tree of depth <= 2 over three leaves with up to three children per node.  *)
+   every tree of depth <= 2 over three leaves with up to three children per node (unary laws: L1)
+   and a 25-tree operand set for the binary laws (LS).  *)
 EXTENDS BoolTree, TLC
 Ids == 1..3
 L0 == {Leaf(i, n) : i \in Ids, n \in BOOLEAN}
 Kids(S, w) == UNION {[1..k -> S] : k \in 1..w}
-L1 == L0 \cup {Not(x) : x \in L0} \cup {Node(kd, n, cs) : kd \in Kinds, n \in BOOLEAN, cs \in Kids({Leaf(i, FALSE) : i \in Ids}, 3)}
+P0 == {Leaf(i, FALSE) : i \in Ids}
+L1 == L0 \cup {Not(x) : x \in L0} \cup {Node(kd, n, cs) : kd \in Kinds, n \in BOOLEAN, cs \in Kids(P0, 3)}
+\* operands of the binary laws: leaves, wrapped leaves and the two-leaf nodes over leaves 1, 2 / 2, 3
+LS == L0 \cup {Not(x) : x \in P0} \cup {Node(kd, n, <<Leaf(i, FALSE), Leaf(i + 1, FALSE)>>) : kd \in Kinds, n \in BOOLEAN, i \in 1..2}
 Same(a, b) == \A v \in SUBSET Ids : Eval(a, v) = Eval(b, v)
 
 DoubleNegation == \A x \in L1 : Same(Not(Not(x)), x)
-DeMorganAnd == \A x, y \in L1 : Same(Node("and", TRUE, <<x, y>>), Node("or", FALSE, <<Not(x), Not(y)>>))
-DeMorganOr  == \A x, y \in L1 : Same(Node("or", TRUE, <<x, y>>), Node("and", FALSE, <<Not(x), Not(y)>>))
-Commutes == \A kd \in Kinds, x, y \in L1 : Same(Node(kd, FALSE, <<x, y>>), Node(kd, FALSE, <<y, x>>))
+DeMorganAnd == \A x, y \in LS : Same(Node("and", TRUE, <<x, y>>), Node("or", FALSE, <<Not(x), Not(y)>>))
+DeMorganOr  == \A x, y \in LS : Same(Node("or", TRUE, <<x, y>>), Node("and", FALSE, <<Not(x), Not(y)>>))
+Commutes == \A kd \in Kinds, x, y \in LS : Same(Node(kd, FALSE, <<x, y>>), Node(kd, FALSE, <<y, x>>))
 LeafFlag == \A i \in Ids : Same(Leaf(i, TRUE), Not(Leaf(i, FALSE)))
-OneOfTwoIsXor == \A x, y \in L1 : \A v \in SUBSET Ids :
+OneOfTwoIsXor == \A x, y \in LS : \A v \in SUBSET Ids :
                     Eval(Node("one", FALSE, <<x, y>>), v) = (Eval(x, v) # Eval(y, v))
-NormalForms == \A x \in L1 : /\ EquivDNF(x, RefDNF(x), Ids) /\ EquivCNF(x, RefCNF(x), Ids)
-                             /\ \A v \in SUBSET Ids : EvalLits(FullDNF(x, TRUE), v) = Eval(x, v)
+NormalForms == \A x \in L1 : LET D == RefDNF(x)  C == RefCNF(x)  F == FullDNF(x, TRUE) IN
+                   \A v \in SUBSET Ids : /\ EvalDNF(D, v) = Eval(x, v) /\ EvalCNF(C, v) = Eval(x, v)
+                                          /\ EvalLits(F, v) = Eval(x, v)
 \* the expansion pkgcore ships today for a negated any-of (negated clause AND the plain ones) is NOT one
 ShippedNegOr(x, y) == {{Not(x), Not(y)}, {x}, {y}}
 ShippedNegOrIsWrong == \E x, y \in L0 : ~EquivDNF(Node("or", TRUE, <<x, y>>), ShippedNegOr(x, y), Ids)
